@@ -253,6 +253,29 @@ def runHist {α : Type} (desc : FieldDesc) (F : FOps α) (uSpec bSpec : String) 
       let (st, lastQ) := stq
       let toks := (line.trimAscii.toString.splitOn " ").filter (· != "")
       if line.startsWith "tcheck@" then ((st, lastQ), "ok 0 of " ++ toString (env.fld (atIdx line)).card)
+      else if line.startsWith "uireduce " then
+        -- `uireduce j:<gens> pK`: an ideal is made in univariate ring j and its public `Reduce` is applied to pK:
+        -- the polynomial's own error first, then the ring test (ArithmeticIncompat), then the unit ideal (zero),
+        -- then the remainder modulo the monic generator
+        let arg := toks.getD 1 ""
+        let j := ((arg.splitOn ":").getD 0 "0").toNat!
+        let k := regNum (toks.getD 2 "")
+        let rp := uGet env st k
+        match (((arg.splitOn ":").getD 1 "").splitOn ";").mapM (decU env0) with
+        | none => ((st, lastQ), "bad-op")
+        | some gens =>
+          match UPoly.newIdeal F gens with
+          | none => ((st, lastQ), "err-ideal InputValue")
+          | some g =>
+            if UPoly.isZero F g then ((st, lastQ), "err-ideal InputValue")
+            else if rp.err.isErr then ((st, lastQ), "err " ++ toString rp.err)
+            else if rp.home != j then ((st, lastQ), "err ArithmeticIncompat")
+            else
+              match UPoly.reduce F g rp.val with
+              | none => ((st, lastQ), "fuel-exhausted")
+              | some v =>
+                let r : UReg α := { rp with val := v }
+                (({ st with us := St.setL st.us k r }, lastQ), "ok " ++ showU env r)
       else if line.startsWith "ireduce " then
         -- `ireduce iN qK`: `id.Reduce(f)` — `IsGroebner()` is asked first (and cached in the ideal object); when the
         -- answer is no, a Groebner basis is computed on the side; f becomes its remainder modulo the basis
